@@ -62,7 +62,9 @@ Q = {
     "qSl": "$.s[-2:]",
     "qR": "$.s[::-1]",
     "qN": "$.l[?@.b == 'ab' || !@.a]",
-    "qBad": "$.l[?match(@.b, '\\\\d+') || search(@.b, '(?i)a') || match(@.b, $.x)]",
+    "qBad2": "$.l[?match(@.b, '[z-a]b*')]",
+    "qBad3": "$.l[?search(@.b, 'a{2,1}')]",
+    "qBad": "$.l[?match(@.b, '\\\\d+') || search(@.b, '(?i)a') || match(@.b, $.x) || match(@.b, '[z-a]b*') || search(@.b, 'a{2,1}')]",
 }
 ENVS = ["D", "E1", "E2", "S", "SF"]
 F_IMPL = {"E1": 1, "E2": 2, "SF": 3, "D": 4, "S": 5}  # f1(x) is true iff x == this number
@@ -331,7 +333,7 @@ def run_history(hist):
             _, e = op
             env = w.env(e)
             exp = obs = ("ok", None)
-            for q in ("qM", "qBad", "qBad", "qS", "qBad"):
+            for q in ("qM", "qBad", "qBad", "qS", "qBad", "qM", "qBad2", "qBad2", "qS", "qBad3", "qBad3"):
                 ex = m.expect(e, q, "d1", w.docs)
                 ob = observe(lambda: env.find(Q[q], w.docs["d1"]))
                 if tuple(ex) != tuple(ob[:2]):
